@@ -4,14 +4,17 @@
   What is modelled (interp/interp.go, interp/program.go, interp/run.go, interp/src.go):
     * `Interpreter.id` / `frame.id`: run generation counters; `runCfg` executes an operation of a frame only
       while `f.runid() == n.interp.runid()`;
-    * `stop()`: bump the interpreter id, close `done`, install a fresh `done`;
-    * `newFrame(anc, len, id)`: which id each call site passes (`call`, `interp.run`) and, for the calls of
-      function values (`genFunctionWrapper`, `getFunc`), whether they go through `newCallFrame`, which takes the
-      id AND the done channel of the ROOT frame, read when the call is made — all of it *facts* (`RunIdFacts`),
-      re-extracted from the source on every run;
-    * `Execute`: refresh of the root frame id, then the run list (root code, global variables, every `init`,
-      `main`), then (deferred) a second refresh when it returns; `importSrc`: refresh before the entry points of
-      an imported package;
+    * epochs (dc95f3e): every evaluation (`begin()` in `Execute` and `importSrc`) has one; frames inherit it
+      (`newFrame`, `clone`), function values carry the epoch of the frame that made them; `stop()` marks the epochs
+      of the running evaluations cancelled, bumps the interpreter id, closes `done` and installs a fresh `done`;
+    * `newFrame(anc, len, id)`: which id each call site passes (`call`, `interp.run`); the calls of function values
+      (`genFunctionWrapper`, `getFunc`) go through `newCallFrame`, which reads — under one lock, when the frame is
+      made — the interpreter's CURRENT id and done channel, and gives the frame an id the interpreter never has
+      when the epoch of the function value is cancelled — all of it *facts* (`RunIdFacts`), re-extracted from the
+      source on every run (the records of the earlier trees — root id and root done, deferred refresh of `Execute` —
+      are still expressible: `Expected.C09.round2Facts`, `oldFacts`);
+    * `Execute`: `begin()` (refresh of the root frame id, new epoch), then the run list (root code, global variables,
+      every `init`, `main`); `importSrc`: the same before the entry points of an imported package;
     * blocking channel operations (`recv`, `recv2`, `send`, `rangeChan`, `_select`): whether `f.done` is one of
       the `reflect.Select` cases and whether the variant is chosen by `n.interp.cancelChan` when the closure
       is generated; where `cancelChan` is set (`New`, or the `…WithContext` entry points).
